@@ -280,6 +280,8 @@ def stmt_ir(st, where):
     if isinstance(st, ast.Assign):
         for r in reads_of(st.value):
             out.append('R:' + r)
+        if isinstance(st.value, ast.Call) and src(st.value.func).startswith('super().'):
+            out.append('SUPER:' + src(st.value.func)[len('super().'):])
         for t in st.targets:
             if isinstance(t, ast.Attribute) and isinstance(t.value, ast.Name) and t.value.id == 'self':
                 out.append('A:' + t.attr)
@@ -381,6 +383,26 @@ def stmt_ir(st, where):
     raise FactError(f'{where}: unsupported statement {type(st).__name__}: {src(st)[:60]}')
 
 
+def meta_ir(trees):
+    """(class, metaclass, IR of the metaclass' __call__) for every class declared with metaclass=<a class of the model>."""
+    metas = {}
+    for modname, tree in trees:
+        for c in classes(tree):
+            for m in methods(c):
+                if m.name == '__call__' and any(src(b) == 'type' for b in c.bases):
+                    metas[c.name] = stmts_ir(m.body, f'{c.name}.__call__')
+    out = []
+    for modname, tree in trees:
+        for c in classes(tree):
+            for k in c.keywords:
+                if k.arg == 'metaclass':
+                    mc = src(k.value)
+                    if mc not in metas:
+                        raise FactError(f'{c.name}: metaclass {mc} without a __call__ the extractor understands')
+                    out.append((c.name, mc, metas[mc]))
+    return out
+
+
 # ---------------------------------------------------------------- main
 MODEL_FILES = [
     'simulation.py', 'resource_manager.py', 'system.py',
@@ -461,6 +483,10 @@ def generate(repo):
             items.append(f'({q(name)}, {q(hname)}, [' + '; '.join(q(x) for x in hir) + '])')
     L.append('(* IR of property setters and helper methods reachable from constructors/initialisers *)')
     L.append('Definition helper_ir : list (string * string * list string) := ' + coq_list(items) + '.')
+    L.append('')
+    L.append('(* (class, its metaclass, IR of the metaclass __call__): code that runs around the whole constructor chain *)')
+    items = [f'({q(c)}, {q(mc)}, [' + '; '.join(q(x) for x in ir) + '])' for c, mc, ir in meta_ir(trees)]
+    L.append('Definition meta_ir : list (string * string * list string) := ' + coq_list(items) + '.')
     L.append('')
     return '\n'.join(L)
 
